@@ -1,7 +1,8 @@
 """Witnesses of the findings recorded for C11 (findings_proposed/C11.txt).  Each returns None when the property
 holds on the witness and a string describing the failure otherwise.  Only `ruby-structure` is still recorded (its
 witness fails and the check prints KNOWN-FINDING for it); every other witness belongs to a defect repaired in the
-code (`fixed:` lines of findings_proposed/C11.txt) and must pass."""
+code (`fixed:` lines of findings_proposed/C11.txt) and must pass; so must the two at the end, whose repairs (unmatched end tags,
+percentages beyond the float range) were made for C18 and changed the code the C11 model transcribes."""
 import io
 from fractions import Fraction
 from witnesses import witness
@@ -148,3 +149,32 @@ def _():
         return f"<rt> outside <ruby> raises {type(e).__name__}"
     got = [t for t, _, _ in _texts(_p(d))]
     if got != ["x", "y", "a", "b", "z"]: return f"texts {got}, expected x y a b z"
+
+# ---- repaired in /repo for C18 (2ddde69, 0892ca3); the reader model of C11 transcribes the repaired code: these must PASS
+@witness("C11", "unmatched-end-tag")
+def _():
+    cases = {"a</b>c": [("a", False), ("c", False)], "a</b></b></b>c": [("a", False), ("c", False)],
+             "<b>x</i>y</b>z</b>w": [("x", True), ("y", True), ("z", False), ("w", False)],
+             "<b><i>x</b>y</i>z": [("x", True), ("y", True), ("z", True)],
+             "<b>x</B>y": [("x", True), ("y", False)]}
+    for txt, want in cases.items():
+        try:
+            d = _read(f"WEBVTT\n\n00:01.000 --> 00:02.000\n{txt}\n")
+        except Exception as e:
+            return f"{txt} raises {type(e).__name__}"
+        got = [(t, b) for t, b, _ in _texts(_p(d))]
+        if got != want: return f"{txt}: (text, bold) = {got}, expected {want}"
+    d = _read("WEBVTT\n\n00:01.000 --> 00:02.000\n<ruby>a<rt>b</ruby>c\n")
+    import ttconv.model as m
+    ch = list(_p(d))
+    if len(ch) != 2 or not isinstance(ch[0], m.Ruby) or not isinstance(ch[1], m.Span): return f"<ruby>a<rt>b</ruby>c: children {[type(c).__name__ for c in ch]}, expected Ruby, Span"
+
+@witness("C11", "percentage-overflow")
+def _():
+    base = _region(_read("WEBVTT\n\n00:01.000 --> 00:02.000\nx\n"))
+    for st in ("size:" + "9" * 400 + "%", "position:1" + "0" * 320 + "%", "line:" + "5" * 330 + ".5%,center"):
+        try:
+            g = _region(_read(f"WEBVTT\n\n00:01.000 --> 00:02.000 {st}\nx\n"))
+        except Exception as e:
+            return f"{st[:12]}… raises {type(e).__name__}"
+        if g != base: return f"{st[:12]}… is not a WebVTT percentage and must be ignored: region {g}, default {base}"
